@@ -851,3 +851,52 @@ def enum_size_coincidences(tier):
 
 
 SUBS.append(Sub("size_coincidences", check_components, enum=enum_size_coincidences))
+
+
+# ------------------------------------------------------------------------------------------
+# (added by the lead) Calc_Reaction in a transient state: K u + C v (parabolic), K u + C v + M a (every hyperbolic scheme), as its
+# docstring states; arbitrary injected u, v, a; the matrices are the ones of Get_K_C_M_F (checked by C02 / C03)
+
+HYPERBOLIC = ["newmark", "midpoint", "hht", "hht_newmark", "euler_implicit", "euler_explicit"]
+
+
+@st.composite
+def dyn_reaction_cases(draw):
+    sim = draw(st.sampled_from(["elastic", "elastic", "thermal", "weakforms", "beam"]))
+    case = draw(cs.sim_cases(sims=[sim], coarse=True))
+    case["algo"] = "parabolic" if sim == "thermal" else draw(st.sampled_from(HYPERBOLIC + (["parabolic"] if sim == "weakforms" else [])))
+    case["pick"] = draw(st.integers(0, 9999))
+    case["rayleigh"] = draw(st.sampled_from([None, [0.3, 0.2]])) if sim == "elastic" else None
+    return case
+
+
+def check_dyn_reactions(case, rec):
+    ctx = cs.build(case, inject=True)
+    simu, mesh = ctx.simu, ctx.mesh
+    if case.get("rayleigh"):
+        simu.Set_Rayleigh_Damping_Coefs(*case["rayleigh"])
+    rec.label(f"sim:{ctx.kind}", "algo:" + ctx.algo, "damped" if case.get("rayleigh") else "undamped")
+    sig = dict(sim=ctx.sim, kind=ctx.kind, algo=ctx.algo, types=ctx.types)
+    K, C, M, F = simu.Get_K_C_M_F(ctx.pt)
+    n = mesh.Nn * ctx.ncomp
+    u, v, a = ctx.u.ravel(), ctx.v.ravel(), ctx.a.ravel()
+    terms = [abs(K) @ np.abs(u)]
+    ref = K @ u
+    if ctx.algo != "elliptic":
+        ref = ref + C @ v
+        terms.append(abs(C) @ np.abs(v))
+    if ctx.algo in HYPERBOLIC:
+        ref = ref + M @ a
+        terms.append(abs(M) @ np.abs(a))
+    rng = np.random.default_rng(int(case["pick"]))
+    dofs = np.sort(rng.choice(n, size=max(1, n // 3), replace=False))
+    R = np.asarray(simu.Calc_Reaction(dofs.copy()), float)
+    rec.require(R.shape == (dofs.size,), "reaction_shape", f"Calc_Reaction returned shape {R.shape} for {dofs.size} dofs", **sig)
+    scale = float(np.max(sum(terms))) + 1e-300
+    rec.close(R - np.asarray(ref).ravel()[dofs], scale, 1e-10, "reaction_transient",
+              f"{ctx.kind} {ctx.types} algo={ctx.algo}: Calc_Reaction != K u + C v + M a (the terms its docstring lists for this scheme)", **sig)
+    rec.nontrivial(float(np.abs(terms[-1]).max()) > 0)
+
+
+SUBS.append(Sub("reactions_transient", check_dyn_reactions, gen=dyn_reaction_cases, quick=120, thorough=1200, shards=4,
+                doc="Calc_Reaction of an arbitrary transient state vs K u + C v + M a for every time scheme"))
